@@ -415,6 +415,7 @@ impl<'a> WireCtx<'a> {
 
     /// compare the real decoder with the oracle on one input
     pub fn check_one(&mut self, decoder: &str, b: &[u8], expect: Option<bool>, info: &Value) {
+        crate::watch::context(format!("{} decoder {} on {} bytes {}", self.suite.name(), decoder, b.len(), hex::encode(&b[..b.len().min(48)])));
         self.evals += 1;
         let want = self.oracle(decoder, b);
         if let Some(e) = expect {
@@ -424,6 +425,7 @@ impl<'a> WireCtx<'a> {
             }
         }
         let suite = self.suite;
+        let _running = crate::watch::enter();
         let got = std::panic::catch_unwind(std::panic::AssertUnwindSafe(|| suite.decode(decoder, b)));
         match got {
             Err(_) => self.report(decoder, "panic", "decoder panicked".into(), b, info.clone()),
@@ -477,7 +479,8 @@ impl<'a> WireCtx<'a> {
             self.evals += 1;
             let want = self.oracle(decoder, mutated);
             let suite = self.suite;
-            let got = std::panic::catch_unwind(std::panic::AssertUnwindSafe(|| suite.from_serde(decoder, &sub, codec)));
+            let _running = crate::watch::enter();
+        let got = std::panic::catch_unwind(std::panic::AssertUnwindSafe(|| suite.from_serde(decoder, &sub, codec)));
             match got {
                 Err(_) => self.report(decoder, "panic", format!("serde {:?} decoder panicked", codec), mutated, info.clone()),
                 Ok(Ok(re)) => {
@@ -578,6 +581,28 @@ impl<'a> WireCtx<'a> {
     /// of C12 as well: every length 0..len+8 with several fillings, the valid key truncated and
     /// extended; oracle: exact length and valid by the reference predicate, never a panic.
     pub fn fuzz_keys(&mut self) {
+        // key generation and derivation terminate and do not panic (random_sk is the documented way to make a key
+        // for ServerSetup::new_with_key); a call that does not return is reported by the watchdog
+        for t in 0..4i64 {
+            let suite = self.suite;
+            crate::watch::context(format!("{} key-pair API: random_sk on tape {}", suite.name(), 8800 + t));
+            let _running = crate::watch::enter();
+            self.evals += 1;
+            let r = std::panic::catch_unwind(std::panic::AssertUnwindSafe(|| suite.ke_random_sk(&mut crate::rng::TapeRng::new(0x5eed, 8800 + t))));
+            drop(_running);
+            if r.is_err() {
+                self.report_key("KeyPair", "panic", "KeGroup::random_sk panicked".into(), &[], json!({"tape": 8800 + t}));
+            }
+            let nsk = self.lens.nsk;
+            for seedb in [vec![0u8; nsk], vec![0xffu8; nsk], (0..nsk).map(|i| (i as u8).wrapping_mul(37).wrapping_add(t as u8)).collect::<Vec<u8>>()] {
+                crate::watch::context(format!("{} key-pair API: derive_auth_keypair on seed {}", suite.name(), hex::encode(&seedb)));
+                let _running = crate::watch::enter();
+                self.evals += 1;
+                if std::panic::catch_unwind(std::panic::AssertUnwindSafe(|| suite.ke_derive(&seedb))).is_err() {
+                    self.report_key("KeyPair", "panic", "derive_auth_keypair panicked".into(), &seedb, json!({}));
+                }
+            }
+        }
         let l = self.lens;
         let valid_pk = self.valid["RegistrationResponse"][l.noe..].to_vec();
         let valid_sk = self.valid["ServerSetup"][l.nh..l.nh + l.nsk].to_vec();
@@ -601,7 +626,8 @@ impl<'a> WireCtx<'a> {
                 self.evals += 1;
                 let want = b.len() == full && self.field_valid(kind, &b);
                 let suite = self.suite;
-                let got = std::panic::catch_unwind(std::panic::AssertUnwindSafe(|| suite.decode(dec, &b)));
+                let _running = crate::watch::enter();
+        let got = std::panic::catch_unwind(std::panic::AssertUnwindSafe(|| suite.decode(dec, &b)));
                 let info = json!({"source": "key-pair API", "len": b.len()});
                 match got {
                     Err(_) => self.report_key(dec, "panic", "key constructor panicked".into(), &b, info),
@@ -615,6 +641,7 @@ impl<'a> WireCtx<'a> {
                         // (other lengths: the constructors of the NIST groups also take other SEC1 / short
                         //  forms; no listed decoder reaches them with such lengths - an observation, not C10)
                         if dec == "KePrivateKey" && b.len() == full {
+                            let _running = crate::watch::enter();
                             let _ = std::panic::catch_unwind(std::panic::AssertUnwindSafe(|| suite.ke_keypair_from_slice(&b)))
                                 .map_err(|_| self.report_key(dec, "panic", "KeyPair::from_private_key_slice panicked".into(), &b, json!({})));
                         }
@@ -713,7 +740,8 @@ impl<'a> WireCtx<'a> {
                             let text = serde_json::to_vec(&m).unwrap();
                             self.evals += 1;
                             let suite = self.suite;
-                            let got = std::panic::catch_unwind(std::panic::AssertUnwindSafe(|| suite.from_serde(d, &text, Codec::Json)));
+                            let _running = crate::watch::enter();
+        let got = std::panic::catch_unwind(std::panic::AssertUnwindSafe(|| suite.from_serde(d, &text, Codec::Json)));
                             match got {
                                 Err(_) => self.report(d, "panic", format!("serde Json decoder panicked on a structurally altered encoding (node '{}')", path), &text, info.clone()),
                                 Ok(Ok(re)) => {
@@ -733,7 +761,8 @@ impl<'a> WireCtx<'a> {
                     self.evals += 1;
                     let suite = self.suite;
                     let cut = enc[..n].to_vec();
-                    let got = std::panic::catch_unwind(std::panic::AssertUnwindSafe(|| suite.from_serde(d, &cut, Codec::Bincode)));
+                    let _running = crate::watch::enter();
+        let got = std::panic::catch_unwind(std::panic::AssertUnwindSafe(|| suite.from_serde(d, &cut, Codec::Bincode)));
                     match got {
                         Err(_) => self.report(d, "panic", "serde Bincode decoder panicked on a truncated encoding".into(), &cut, info.clone()),
                         Ok(Ok(_)) => self.report(d, "accepts-wrong-length", format!("serde Bincode decoder accepted a truncated encoding ({} of {} bytes)", n, enc.len()), &cut, info.clone()),
@@ -746,6 +775,7 @@ impl<'a> WireCtx<'a> {
                     b[pos] = 0xff;
                     self.evals += 1;
                     let suite = self.suite;
+                    let _running = crate::watch::enter();
                     if std::panic::catch_unwind(std::panic::AssertUnwindSafe(|| suite.from_serde(d, &b, Codec::Bincode))).is_err() {
                         self.report(d, "panic", "serde Bincode decoder panicked".into(), &b, info.clone());
                     }
